@@ -1876,3 +1876,232 @@ theorem dataSpec_encoded_empty {bnd : Bytes} (tail : Bytes) {f : Bool} {rest : B
     rw [e2, drop_add_append, drop_add_append, hdrop]
 
 end Wz.Multipart
+
+namespace Wz.Multipart
+open Wz
+
+/-! ### the three line-break conventions (CRLF, bare LF, bare CR) -/
+
+/-- the line break a body uses for its delimiter lines and header lines -/
+inductive Nl where
+  | crlf | lf | cr
+deriving DecidableEq, Repr
+
+def Nl.bytes : Nl → Bytes
+  | .crlf => [13, 10]
+  | .lf => [10]
+  | .cr => [13]
+
+def Nl.len (nl : Nl) : Nat := nl.bytes.length
+
+/-- "free of the other newline kind": with bare-LF delimiters the text contains no CR, with bare-CR
+delimiters no LF; no condition for CRLF -/
+def NoOther : Nl → Bytes → Prop
+  | .crlf, _ => True
+  | .lf, p => 13 ∉ p
+  | .cr, p => 10 ∉ p
+
+instance (nl : Nl) (p : Bytes) : Decidable (NoOther nl p) := by
+  cases nl <;> simp only [NoOther] <;> infer_instance
+
+theorem Nl.len_pos (nl : Nl) : 0 < nl.len := by cases nl <;> decide
+theorem Nl.len_le_two (nl : Nl) : nl.len ≤ 2 := by cases nl <;> decide
+
+theorem Nl.lbLen_append {nl : Nl} {c : UInt8} (rest : Bytes) (hc : c ≠ 10) :
+    lbLen (nl.bytes ++ c :: rest) = nl.len := by
+  cases nl
+  · exact lbLen_crlf _
+  · exact lbLen_lf _
+  · exact lbLen_cr_not_lf rest hc
+
+theorem Nl.lbLen_delim (nl : Nl) (bnd x : Bytes) : lbLen (nl.bytes ++ (delim bnd ++ x)) = nl.len := by
+  have := Nl.lbLen_append (nl := nl) (c := 45) (45 :: (bnd ++ x)) (by decide)
+  simpa [delim] using this
+
+theorem Nl.head_isNl (nl : Nl) (x : Bytes) : ∃ a t, nl.bytes ++ x = a :: t ∧ isNl a = true := by
+  cases nl
+  · exact ⟨13, 10 :: x, rfl, by decide⟩
+  · exact ⟨10, x, rfl, by decide⟩
+  · exact ⟨13, x, rfl, by decide⟩
+
+theorem NoOther.append {nl : Nl} {a b : Bytes} : NoOther nl (a ++ b) ↔ NoOther nl a ∧ NoOther nl b := by
+  cases nl <;> simp [NoOther]
+
+/-- what follows `--boundary`: `--` + anything (closing delimiter) or the line break + the header
+block of the next part (which does not start with LF) -/
+def AfterDelimNl (nl : Nl) (tail : Bytes) (f : Bool) (rest : Bytes) : Prop :=
+  (f = true ∧ ∃ x, tail = 45 :: 45 :: x ∧
+    rest = x.drop ((x.takeWhile isHws).length + lbLen (x.dropWhile isHws))) ∨
+  (f = false ∧ ∃ c r, c ≠ 10 ∧ tail = nl.bytes ++ c :: r ∧ rest = c :: r)
+
+theorem matchTail_afterDelimNl {nl : Nl} {tail : Bytes} {f : Bool} {rest : Bytes}
+    (h : AfterDelimNl nl tail f rest) :
+    ∃ m, matchTail tail = some (m, f) ∧ tail.drop m = rest := by
+  rcases h with ⟨rfl, x, rfl, rfl⟩ | ⟨rfl, c, r, hc, rfl, rfl⟩
+  · exact matchTail_afterDelim (AfterDelim.closing x)
+  · refine ⟨nl.len, ?_, by simp [Nl.len]⟩
+    rcases nl.head_isNl (c :: r) with ⟨a, t, he, ha⟩
+    apply matchTail_false_iff.2
+    exact ⟨[], a, t, by simpa using he, by simp, ha, by rw [← he, Nl.lbLen_append r hc]; simp⟩
+
+/-- bare-LF bodies: no delimiter can start inside `p` when no line of `p` starts with `--boundary`,
+`p` contains no CR and is followed by an LF -/
+theorem no_match_inside_lf {bnd : Bytes} (hb : BoundaryOk bnd) (p Y : Bytes)
+    (h : lineStarts (delim bnd) p = false) (hcr : 13 ∉ p) :
+    ∀ j, j < p.length → matchDelimAt bnd false ((p ++ 10 :: Y).drop j) = none := by
+  induction p with
+  | nil => intro j hj; simp at hj
+  | cons a r ih =>
+    simp only [lineStarts, Bool.or_eq_false_iff] at h
+    intro j hj
+    cases j with
+    | succ j => simpa using ih h.2 (fun hm => hcr (by simp [hm])) j (by simpa using hj)
+    | zero =>
+      simp only [List.drop_zero]
+      cases hx : matchDelimAt bnd false ((a :: r) ++ 10 :: Y) with
+      | none => rfl
+      | some v =>
+        exfalso
+        rcases v with ⟨n, f⟩
+        rcases matchDelimAt_iff.1 hx with ⟨r', m, hl, hd, _, _⟩
+        have ha : isNl a = true := by
+          rcases lbLen_pos_iff.1 hl with ⟨a', t', he, hn⟩
+          simp at he; rw [he.1]; exact hn
+        have ha10 : a = 10 := by
+          rcases isNl_iff.1 ha with h1 | h1
+          · exact h1
+          · exfalso; exact hcr (by simp [h1])
+        subst ha10
+        have hnp : (delim bnd).isPrefixOf r = false := by
+          have := h.1; rw [ha] at this; simpa using this
+        rw [List.cons_append, lbLen_lf] at hd
+        simp only [List.drop_succ_cons, List.drop_zero] at hd
+        have : (delim bnd).isPrefixOf (r ++ 10 :: Y) = true := by
+          rw [hd, List.isPrefixOf_iff_prefix]; exact List.prefix_append _ _
+        rw [isPrefixOf_append_nl r Y (delim_no_nl hb) (by decide), hnp] at this
+        simp at this
+
+/-- the payload may be written between the line break and `line break --boundary`: no line of it
+(the first included) starts with `--boundary`, and it is free of the other newline kind -/
+def PayloadOkNl (nl : Nl) (bnd payload : Bytes) : Prop :=
+  lineStarts (delim bnd) (nl.bytes ++ payload) = false ∧ NoOther nl payload
+
+instance (nl : Nl) (bnd payload : Bytes) : Decidable (PayloadOkNl nl bnd payload) := by
+  unfold PayloadOkNl; infer_instance
+
+theorem payloadOkNl_crlf {bnd payload : Bytes} : PayloadOkNl .crlf bnd payload ↔ PayloadOk bnd payload := by
+  simp [PayloadOkNl, PayloadOk, NoOther, Nl.bytes]
+
+theorem no_match_inside_nl {nl : Nl} {bnd : Bytes} (hb : BoundaryOk bnd) (payload Y : Bytes)
+    (hp : PayloadOkNl nl bnd payload) :
+    ∀ j, j < (nl.bytes ++ payload).length →
+      matchDelimAt bnd false (((nl.bytes ++ payload) ++ (nl.bytes ++ Y)).drop j) = none := by
+  rcases hp with ⟨h1, h2⟩
+  cases nl with
+  | crlf => exact no_match_inside hb _ (10 :: Y) h1
+  | cr => exact no_match_inside hb _ Y h1
+  | lf =>
+    refine no_match_inside_lf hb _ Y h1 ?_
+    simp only [NoOther] at h2
+    simpa [Nl.bytes] using h2
+
+/-- the first bytes of the data stretch are the line break, whatever the payload -/
+theorem Nl.lbLen_data {nl : Nl} (payload X : Bytes) (h2 : NoOther nl payload) :
+    lbLen (nl.bytes ++ payload ++ (nl.bytes ++ X)) = nl.len := by
+  cases nl with
+  | crlf => exact lbLen_crlf _
+  | lf => exact lbLen_lf _
+  | cr =>
+    cases payload with
+    | nil => exact lbLen_cr_not_lf _ (by decide)
+    | cons a t =>
+      have : a ≠ 10 := by intro e; subst e; simp [NoOther] at h2
+      exact lbLen_cr_not_lf _ this
+
+/-- **The framing is undone by the DATA kernel, for every line-break convention.** -/
+theorem dataSpec_encoded_nl {nl : Nl} {bnd : Bytes} (hb : BoundaryOk bnd) (payload tail : Bytes) {f : Bool}
+    {rest : Bytes} (hp : PayloadOkNl nl bnd payload) (ht : AfterDelimNl nl tail f rest) :
+    dataSpec bnd true (nl.bytes ++ payload ++ (nl.bytes ++ (delim bnd ++ tail))) = some (payload, f, rest) := by
+  rcases matchTail_afterDelimNl ht with ⟨m, hm, hdrop⟩
+  let P : Bytes := nl.bytes ++ payload
+  have hmatch : matchDelimAt bnd false (nl.bytes ++ (delim bnd ++ tail)) =
+      some (nl.len + (bnd.length + 2) + m, f) := by
+    apply matchDelimAt_iff.2
+    have hl := nl.lbLen_delim bnd tail
+    refine ⟨tail, m, by rw [hl]; exact nl.len_pos, by rw [hl]; simp [Nl.len], hm, by rw [hl]⟩
+  have hsearch : searchDelim bnd false (P ++ (nl.bytes ++ (delim bnd ++ tail))) =
+      some (P.length, P.length + (nl.len + (bnd.length + 2) + m), f) := by
+    rw [searchDelim_skip _ P.length (no_match_inside_nl hb payload (delim bnd ++ tail) hp)]
+    have : (P ++ (nl.bytes ++ (delim bnd ++ tail))).drop P.length = nl.bytes ++ (delim bnd ++ tail) := by simp
+    rw [this]
+    rcases nl.head_isNl (delim bnd ++ tail) with ⟨a, t, he, _⟩
+    rw [he] at hmatch ⊢
+    rw [searchDelim_cons_some hmatch]
+    simp [shift, Nat.add_comm]
+  rw [dataSpec_true, hsearch]
+  simp only [Option.some.injEq, Prod.mk.injEq, true_and]
+  constructor
+  · have : (P ++ (nl.bytes ++ (delim bnd ++ tail))).take P.length = P := by simp
+    rw [this, Nl.lbLen_data payload _ hp.2]
+    simp [P, Nl.len]
+  · have : (P ++ (nl.bytes ++ (delim bnd ++ tail))).drop (P.length + (nl.len + (bnd.length + 2) + m)) =
+        (nl.bytes ++ (delim bnd ++ tail)).drop (nl.len + (bnd.length + 2) + m) := by
+      rw [Nat.add_comm, drop_add_append]
+    rw [this]
+    have e2 : nl.len + (bnd.length + 2) + m = (m + (delim bnd).length) + nl.bytes.length := by
+      simp [delim, Nl.len]; omega
+    rw [e2, drop_add_append, drop_add_append, hdrop]
+
+/-- the body-less form (`headers NL NL--boundary`) -/
+theorem dataSpec_encoded_empty_nl {nl : Nl} {bnd : Bytes} (tail : Bytes) {f : Bool} {rest : Bytes}
+    (ht : AfterDelimNl nl tail f rest) :
+    dataSpec bnd true (nl.bytes ++ (delim bnd ++ tail)) = some ([], f, rest) := by
+  rcases matchTail_afterDelimNl ht with ⟨m, hm, hdrop⟩
+  have hl := nl.lbLen_delim bnd tail
+  have hmatch : matchDelimAt bnd false (nl.bytes ++ (delim bnd ++ tail)) =
+      some (nl.len + (bnd.length + 2) + m, f) := by
+    apply matchDelimAt_iff.2
+    refine ⟨tail, m, by rw [hl]; exact nl.len_pos, by rw [hl]; simp [Nl.len], hm, by rw [hl]⟩
+  rcases nl.head_isNl (delim bnd ++ tail) with ⟨a, t, he, _⟩
+  rw [dataSpec_true]
+  rw [he] at hmatch
+  rw [he, searchDelim_cons_some hmatch, ← he]
+  simp only [Option.some.injEq, Prod.mk.injEq, true_and]
+  constructor
+  · simp
+  · have e2 : nl.len + (bnd.length + 2) + m = (m + (delim bnd).length) + nl.bytes.length := by
+      simp [delim, Nl.len]; omega
+    rw [e2, drop_add_append, drop_add_append, hdrop]
+
+/-- the non-closing delimiter line ends with exactly the line break -/
+theorem matchTail_afterDelimNl_len {nl : Nl} {tail : Bytes} {rest : Bytes}
+    (h : AfterDelimNl nl tail false rest) :
+    matchTail tail = some (nl.len, false) ∧ tail.drop nl.len = rest := by
+  rcases h with ⟨hf, _⟩ | ⟨_, c, r, hc, rfl, rfl⟩
+  · simp at hf
+  · refine ⟨?_, by simp [Nl.len]⟩
+    rcases nl.head_isNl (c :: r) with ⟨a, t, he, ha⟩
+    apply matchTail_false_iff.2
+    exact ⟨[], a, t, by simpa using he, by simp, ha, by rw [← he, Nl.lbLen_append r hc]; simp⟩
+
+/-- `matchDelimAt_restrict_true` with the exact length bound -/
+theorem matchDelimAt_restrict_true' {bnd x c : Bytes} {o : Bool} {n : Nat}
+    (h : matchDelimAt bnd o (x ++ c) = some (n, true))
+    (hlen : lbLen (x ++ c) + (bnd.length + 2) + 2 ≤ x.length) :
+    ∃ n', matchDelimAt bnd o x = some (n', true) := by
+  rcases matchDelimAt_iff'.1 h with ⟨r, m, ho, hd, hm, rfl⟩
+  have hx2 : 2 ≤ x.length := by omega
+  have hlb : lbLen (x ++ c) = lbLen x := lbLen_append_of_two_le c hx2
+  rw [hlb] at hd ho hlen
+  rw [List.drop_append_of_le_length (lbLen_le_length x)] at hd
+  rcases matchTail_true_iff.1 hm with ⟨r2, rfl, _⟩
+  have hlen' : (delim bnd ++ [45, 45]).length ≤ (x.drop (lbLen x)).length := by
+    simp [delim]; omega
+  have hp : (delim bnd ++ [45, 45]).isPrefixOf (x.drop (lbLen x) ++ c) = true := by
+    rw [hd, List.isPrefixOf_iff_prefix]; exact ⟨r2, by simp⟩
+  rw [isPrefixOf_append_of_length_le c hlen', List.isPrefixOf_iff_prefix] at hp
+  rcases hp with ⟨rx, hrx⟩
+  refine ⟨_, matchDelimAt_iff'.2 ⟨45 :: 45 :: rx, _, ho, ?_, matchTail_final (by simp [List.isPrefixOf]), rfl⟩⟩
+  rw [← hrx]; simp
+
+end Wz.Multipart
